@@ -47,7 +47,7 @@ Section Run.
     destruct (top_facts c p e Hc _ _ _ _ H Hfr) as [sw [seg [Hw [Hsg [Hck [Hs [Hct [Hpos _]]]]]]]].
     rewrite (segdone_eq p m w ip fr seg Hfr Hsg) in Hd. inv Hd.
     destruct (memz (zlen fr + 1) (ddepths (m_dos m))) eqn:Em; [|reflexivity]. exfalso.
-    destruct (mid_not_done c p _ _ _ Hck Hpos) as [bc [Hbc _]]. apply znth_range in Hbc. lia.
+    destruct (mid_not_done c p Hc _ _ _ Hck Hpos) as [bc [Hbc _]]. apply znth_range in Hbc. lia.
   Qed.
 
   Lemma single_tail_good : forall m t ts, inv c p e m = true -> m_ready m = true -> m_targets m = t :: ts ->
@@ -71,7 +71,9 @@ Section Run.
     good (match r with
           | Ok (Continue, m2) => if single then if bc =? CODE_EXIT then Ok (Return, m2) else single_tail true p t m2
                                  else Ok (Continue, m2)
-          | other => other
+          | Ok (Return, m2) => Ok (Return, m2)
+          | Fault k => Fault k
+          | OutOfFuel => OutOfFuel
           end).
   Proof.
     intros single bc t ts m0 r Hr G Hrd Htg. destruct r as [[[|] m2]|k|]; try exact G.
@@ -95,25 +97,26 @@ Section Run.
     assert (Hcell : exists bc, znth seg ip = Some bc).
     { apply znth_some. split; [|lia].
       destruct (memz (zlen fr + 1) (ddepths (m_dos m))).
-      - destruct (mid_not_done c p _ _ _ Hck Hpos) as [bc [Hbc _]]. apply znth_range in Hbc. lia.
+      - destruct (mid_not_done c p Hc _ _ _ Hck Hpos) as [bc [Hbc _]]. apply znth_range in Hbc. lia.
       - unfold check_seg in Hck. bsplit. pose proof (forallb_memz _ _ _ H3 Hpos) as Hx. cbv beta in Hx. bsplit. lia. }
     destruct Hcell as [bc Hbc].
     unfold exec_instr, fetch_instr. rewrite Hfr, Hsg, Hbc.
     destruct (m_dos m) as [|[[dd dstop] di] dos'] eqn:Edos.
     { (* no do-loop at all *)
       cbn [ddepths map memz existsb] in Hpos.
-      eapply after_op_good; [reflexivity| |exact Hr|exact Ht].
-      eapply (exec_op_good c p e Hc m w ip fr sw seg); try eassumption. rewrite Edos. reflexivity. }
+      assert (G0 : good (exec_op true single p e (set_frames m ((w, ip + 1) :: fr)) bc)).
+      { eapply (exec_op_good c p e Hc m w ip fr sw seg); try eassumption. rewrite Edos. reflexivity. }
+      exact (after_op_good single bc t ts _ _ eq_refl G0 Hr Ht). }
     rewrite ddepths_cons in *. unfold depth. rewrite Hfr, zlen_cons.
     destruct (abs_depth dd =? zlen fr + 1) eqn:Etop.
     - (* the loop header of this frame *)
       assert (abs_depth dd = zlen fr + 1) by lia. rewrite H0 in *. rewrite memz_cons, Z.eqb_refl in Hpos. cbn [orb] in Hpos.
-      destruct (mid_not_done c p _ _ _ Hck Hpos) as [bc' [Hbc' [Hge [Hchild HB]]]].
+      destruct (mid_not_done c p Hc _ _ _ Hck Hpos) as [bc' [Hbc' [Hge [Hchild HB]]]].
       rewrite Hbc in Hbc'. inv Hbc'.
       destruct (dstop <=? di).
       + cbn. split; [assumption|]. intros _. apply inv_mk; [exact Hs|].
         cbn [m_frames m_dos m_targets m_ready set_frames set_dos]. eapply (T_loopend c p Hsg'); eassumption.
-      + eapply after_op_good; [reflexivity| |exact Hr|exact Ht].
+      + refine (after_op_good single bc' t ts m _ eq_refl _ Hr Ht).
         unfold exec_op. replace (bc' <? 0) with false by (unfold BOUND_DICTIONARY in Hge; lia).
         replace (BOUND_DICTIONARY <=? bc') with true by lia.
         unfold push_frame. destruct (depth m =? p_rec_max p); [apply good_stop; [assumption|discriminate]|].
@@ -123,8 +126,9 @@ Section Run.
     - (* a do-loop of an outer frame *)
       assert (Hm : memz (zlen fr + 1) (abs_depth dd :: ddepths dos') = false) by (apply chain_head_notin; [assumption|lia]).
       rewrite Hm in Hpos.
-      eapply after_op_good; [reflexivity| |exact Hr|exact Ht].
-      eapply (exec_op_good c p e Hc m w ip fr sw seg); try eassumption. rewrite Edos, ddepths_cons. assumption.
+      assert (G0 : good (exec_op true single p e (set_frames m ((w, ip + 1) :: fr)) bc)).
+      { eapply (exec_op_good c p e Hc m w ip fr sw seg); try eassumption. rewrite Edos, ddepths_cons. assumption. }
+      exact (after_op_good single bc t ts _ _ eq_refl G0 Hr Ht).
   Qed.
 
   Definition goodR (r : result machine) : Prop :=
@@ -147,13 +151,13 @@ Section Run.
     - pose proof (done_not_mid m w ip fr H Hfr Hsd) as Hm.
       pose proof (pop_incr_good c p e Hc m w ip fr H Hfr Hm Htl Hne) as G.
       destruct (pop_incr m) as [[[|] m']|k|] eqn:Ep; [| |exact G|exact I].
-      + apply pop_incr_ctl in Ep. unfold ctl in Ep. inv Ep. destruct G as [_ G]. specialize (G (or_introl eq_refl)).
-        eapply IH; [assumption|congruence|rewrite H2; eassumption].
+      + apply pop_incr_ctl in Ep. unfold ctl in Ep. injection Ep as He1 He2 He3. destruct G as [_ G]. specialize (G (or_introl eq_refl)).
+        eapply IH; [assumption|rewrite He2; assumption|rewrite He3; eassumption].
       + destruct G as [G1 G2]. split; [assumption|]. intro He. apply G2. right. assumption.
     - pose proof (exec_instr_good single m t ts H Hr Ht ltac:(lia) Hsd) as G.
       destruct (exec_instr true single p e t m) as [[[|] m']|k|] eqn:Ep; [| |exact G|exact I].
-      + apply exec_instr_ctl in Ep. unfold ctl in Ep. inv Ep. destruct G as [_ G]. specialize (G (or_introl eq_refl)).
-        eapply IH; [assumption|congruence|rewrite H2; eassumption].
+      + apply exec_instr_ctl in Ep. unfold ctl in Ep. injection Ep as He1 He2 He3. destruct G as [_ G]. specialize (G (or_introl eq_refl)).
+        eapply IH; [assumption|rewrite He2; assumption|rewrite He3; eassumption].
       + destruct G as [G1 G2]. split; [assumption|]. intro He. apply G2. right. assumption.
   Qed.
 End Run.
